@@ -1655,6 +1655,13 @@ impl LsmTree {
             .collect()
     }
 
+    /// Verification hook: the strings (SST names) and the 'O' info of the live in-memory manifest.
+    #[cfg(rescrv_blue_verif)]
+    pub fn verif_manifest(&self) -> (Vec<String>, Option<String>) {
+        let mani = self.mani.read().unwrap();
+        (mani.strs().cloned().collect(), mani.info('O').map(|s| s.to_string()))
+    }
+
     /// Verification hook: would an ingest wait now; is a compaction selectable now (the
     /// selection is released again at once); number of compactions in flight.
     #[cfg(rescrv_blue_verif)]
